@@ -142,6 +142,62 @@ def loop_elements(body):
     return out
 
 
+def collect_key_sites(h, tb, ret_locals):
+    """The returned value is a XOR fold.  Accumulators may nest (a helper spliced in by the inliner accumulates its own part,
+    a match yields a key or 0): every local reached from the returned one through `acc ^= k` / whole-local moves whose
+    definitions are only the literal 0, XOR-accumulates or key reads is an accumulator; the leaves are the key reads.
+    -> (leaf sites [(bb, acc, key operand, line)], problems [(key, message)])"""
+    all_xors = xor_sites(h)
+    accs_seen = set()
+    sites = []
+    problems = []
+    work = list(ret_locals)
+    while work:
+        acc = work.pop()
+        if acc in accs_seen:
+            continue
+        accs_seen.add(acc)
+        for d in tb.d.defs.get(acc, []):
+            if d[0] != "assign":
+                problems.append(("hash@bb%d" % d[1], "the accumulator %s is overwritten by a call result" % (h.local_name(acc) or acc)))
+                continue
+            rv = d[3]
+            if "use" in rv and "const" in rv["use"]:
+                if rv["use"]["const"].get("val") != 0:
+                    problems.append(("hash@bb%d" % d[1], "the accumulator is also defined by a constant other than 0"))
+                continue
+            if "binop" in rv and rv["binop"] == "BitXor":
+                continue   # handled through all_xors below
+            if "use" in rv:
+                q = rv["use"].get("copy") or rv["use"].get("move")
+                if q is not None and not q["p"]:
+                    work.append(q["l"])      # alias (e.g. the return place of a spliced-in helper)
+                    continue
+                if q is not None:
+                    sites.append((d[1], acc, rv["use"], h.stmts(d[1])[d[2]].get("line")))   # a key read assigned directly
+                    continue
+            problems.append(("hash@bb%d" % d[1], "the accumulator is also defined by something that is neither the literal 0, a key read nor an XOR-accumulate"))
+        for bb, a2, key, line in all_xors:
+            if a2 != acc:
+                continue
+            kp = key.get("copy") or key.get("move")
+            kt0 = tb.operand(key)
+            if kp is not None and not kp["p"] and kt0[0] == "var":
+                work.append(kt0[1])          # a nested accumulator / a value with several definitions
+            else:
+                sites.append((bb, acc, key, line))
+    return sites, problems
+
+
+def returned_locals(h):
+    out = set()
+    for blk in h.blocks:
+        for s in blk["stmts"]:
+            if s["k"] == "assign" and s["place"] == {"l": 0, "p": []} and "use" in s["rv"]:
+                out |= operand_locals(s["rv"]["use"])
+    return out
+
+
 def h1_h2_h5_influence(ck):
     prog = ck.prog
     h = ck.body(HASHER + "::hash", "H1")
@@ -157,19 +213,12 @@ def h1_h2_h5_influence(ck):
         for s in blk["stmts"]:
             if s["k"] == "assign" and s["place"] == {"l": 0, "p": []} and "use" in s["rv"]:
                 ret_locals |= operand_locals(s["rv"]["use"])
-    sites = [s for s in xor_sites(h) if s[1] in ret_locals]
+    sites, fold_problems = collect_key_sites(h, tb, ret_locals)
+    for key_, msg in fold_problems:
+        ck.fail("H5.fold", key_, h.where(), msg)
+    if not fold_problems:
+        ck.ok("H5.fold", "hash", h.where(), "every accumulator is defined only by 0, key reads and XOR-accumulates")
     ck.floor("H5", len(sites), 4, "XOR-accumulates into the returned hash (pieces, side, castling, en passant)")
-    # H5a: accumulator defs are only: literal 0, and the XOR sites
-    for acc in ret_locals:
-        for d in tb.d.defs.get(acc, []):
-            if d[0] == "assign":
-                rv = d[3]
-                is_zero = "use" in rv and "const" in rv["use"] and rv["use"]["const"].get("val") == 0
-                is_xor = "binop" in rv and rv["binop"] == "BitXor"
-                ck.req(is_zero or is_xor, "H5.fold", "hash@bb%d" % d[1], h.where(),
-                       "the accumulator is also defined by something that is neither the literal 0 nor an XOR-accumulate")
-            else:
-                ck.fail("H5.fold", "hash@bb%d" % d[1], h.where(), "the accumulator is overwritten by a call result")
     loops = loop_elements(h)
     covered = set()
     all_accessors = set()
@@ -379,7 +428,7 @@ def h4_keys(ck):
     deps = Deps(h)
     htb = TermBuilder(prog, h)
     best = {}
-    for bb, acc, key, line in xor_sites(h):
+    for bb, acc, key, line in collect_key_sites(h, htb, returned_locals(h))[0]:
         kt = htb.operand(key)
         table = None
         for x in walk(kt):
@@ -464,8 +513,22 @@ def h6_single_source(ck):
     hashes = sum(len(live_calls(b, names=(HASHER + "::hash",))) for b in ws_bodies(prog) + [x for x in prog.bodies.values() if x.crate == "build_script_build"])
     ck.floor("H6", hashes, 5, "call sites of ZobristHasher::hash")
     # no other function produces a `Hash` from a State (e.g. an incremental variant)
+    # private helpers that are only ever called from ZobristHasher::hash (or from other such helpers) are parts of that one
+    # function (they are spliced into it by the helper inliner and analysed there), not second hash functions
+    callers = {}
+    for b in list(prog.bodies.values()):
+        for bb, t in live_calls(b):
+            callers.setdefault(callee_name(t), set()).add(fn_of(prog, b).name if b.j["kind"] == "Closure" else b.name)
+    part_of_hash = {HASHER + "::hash"}
+    grew = True
+    while grew:
+        grew = False
+        for nme, cs in callers.items():
+            if nme not in part_of_hash and nme in prog.bodies and cs and cs <= part_of_hash and not prog.bodies[nme].j.get("public", False):
+                part_of_hash.add(nme)
+                grew = True
     for b in ws_bodies(prog):
-        if b.j["kind"] == "Closure" or b.name == HASHER + "::hash":
+        if b.j["kind"] == "Closure" or b.name in part_of_hash:
             continue
         ret = b.locals[0]["ty"]
         takes_state = any(STATE in b.locals[i]["ty"] for i in range(1, b.arg_count + 1))
